@@ -121,5 +121,64 @@ that long, so the ONCE selection `qmatches` and the STREAM filter `compatible` a
 without an empty-string element -/
 def queryOK (q : Path) : Bool := q.length ≤ 2
 
+/-! ## Runs with session restarts
+
+When a target's session ends the collector forgets the target's state (`cache.Reset`): **the view
+is reset to empty at a restart**, and the target's final state is what its *last* session carried.
+`expected` of a run with restarts is `expected T (finalView (lastSession T steps)) qs`. -/
+
+/-- the view target `name` presents after `steps`, starting from `v` -/
+def viewR (name : String) : View → List StepR → View
+  | v, [] => v
+  | v, .step (.recv n _ _ it) :: r => viewR name (if n = name then applyItem v it else v) r
+  | v, .step (.subscribe _ _ _) :: r => viewR name v r
+  | v, .reset n _ :: r => viewR name (if n = name then [] else v) r
+  | v, .connectError _ _ _ :: r => viewR name v r
+
+/-- the sessions of target `name` during a run (`cur`: the responses of the session under way), the
+last one — possibly empty, possibly still up — included -/
+def sessionsFrom (name : String) : List TItem → List StepR → List (List TItem)
+  | cur, [] => [cur]
+  | cur, .step (.recv n _ _ it) :: r => sessionsFrom name (if n = name then cur ++ [it] else cur) r
+  | cur, .step (.subscribe _ _ _) :: r => sessionsFrom name cur r
+  | cur, .reset n _ :: r => if n = name then cur :: sessionsFrom name [] r else sessionsFrom name cur r
+  | cur, .connectError _ _ _ :: r => sessionsFrom name cur r
+
+def sessionsOf (name : String) (steps : List StepR) : List (List TItem) := sessionsFrom name [] steps
+
+/-- what target `name` streamed in its last session -/
+def lastSessionFrom (name : String) : List TItem → List StepR → List TItem
+  | cur, [] => cur
+  | cur, .step (.recv n _ _ it) :: r => lastSessionFrom name (if n = name then cur ++ [it] else cur) r
+  | cur, .step (.subscribe _ _ _) :: r => lastSessionFrom name cur r
+  | cur, .reset n _ :: r => lastSessionFrom name (if n = name then [] else cur) r
+  | cur, .connectError _ _ _ :: r => lastSessionFrom name cur r
+
+def lastSession (name : String) (steps : List StepR) : List TItem := lastSessionFrom name [] steps
+
+/-- every response target `name` streamed, all sessions in order -/
+def allItemsR (name : String) : List StepR → List TItem
+  | [] => []
+  | .step (.recv n _ _ it) :: r => if n = name then it :: allItemsR name r else allItemsR name r
+  | _ :: r => allItemsR name r
+
+/-- the targets a run mentions (receives from, resets, records an error for) -/
+def sendersR : List StepR → List String
+  | [] => []
+  | .step (.recv n _ _ _) :: r => n :: sendersR r
+  | .step (.subscribe _ _ _) :: r => sendersR r
+  | .reset n _ :: r => n :: sendersR r
+  | .connectError n _ _ :: r => n :: sendersR r
+
+/-- every session of `name` is admissible, checked along the views (`v`: the view at the start) -/
+def wellFormedR (strict : Bool) (name : String) : View → List StepR → Bool
+  | _, [] => true
+  | v, .step (.recv n _ _ it) :: r =>
+    if n = name then itemOK strict v it && wellFormedR strict name (applyItem v it) r else wellFormedR strict name v r
+  | v, .step (.subscribe _ _ _) :: r => wellFormedR strict name v r
+  | v, .reset n _ :: r => wellFormedR strict name (if n = name then [] else v) r
+  | v, .connectError _ _ _ :: r => wellFormedR strict name v r
+
+
 end Relay
 end Gnmi
